@@ -52,6 +52,10 @@ def run(ctx):
             hist = persist.random_history(rng, uni, rng.randrange(4, 14))
         if hist:
             cases.append({"uni": uni, "hist": hist, "seed": 1000 + ctx.seed, "sampled": True})
+    # members of a region merged over the origin in an order that is not the order of their numbers
+    for _ in range(60 if ctx.quick else 2000):
+        uni = persist.bridged_over_origin_universe(rng)
+        cases.append({"uni": uni, "hist": persist.pipeline_history(rng, uni), "seed": 1000 + ctx.seed, "sampled": True})
     for idx, case in enumerate(cases):
         case["id"] = idx
     samples = []
